@@ -42,6 +42,43 @@ func judgeModel(c *MCase, opts canon.Options) mverdict {
 	return judgeModelWith(c, opts, apiRunner)
 }
 
+// judgeModelBoth judges the trace through the library API and — the command line has its own copy of the
+// apply loop (main.go patchRunner) — also through the CLI in its default, in-place mode. every > 1 selects a
+// deterministic 1/every slice of the traces for the CLI run. A CLI-only disagreement is only believed if
+// the real binary reproduces it.
+func judgeModelBoth(env *core.Env, c *MCase, opts canon.Options, every int) mverdict {
+	v := judgeModel(c, opts)
+	if v.Out.Violation != "" || v.Out.Skip != "" || c.Decoy != "" {
+		return v
+	}
+	if every > 1 && int(hashString(v.PatchText+"\x00"+c.File)%uint32(every)) != 0 {
+		return v
+	}
+	v2 := judgeModelWith(c, opts, cliRunner(env))
+	if v2.Out.Violation == "" {
+		v.Out.Transitions += v2.Out.Transitions
+		v.Out.Validated++
+		return v
+	}
+	for i := 0; i < 3; i++ {
+		if vr := judgeModelWith(c, opts, cliRunnerReal(env)); vr.Out.Violation == "" {
+			v.Out = core.Outcome{Skip: "driver-only disagreement (not reproduced by the real binary): " + v2.Out.FindingKey}
+			return v
+		}
+	}
+	v2.Out.Violation = "[command line, in place] " + v2.Out.Violation
+	v2.Out.FindingKey += "/cli"
+	return v2
+}
+
+func hashString(s string) uint32 {
+	h := uint32(2166136261)
+	for i := 0; i < len(s); i++ {
+		h = (h ^ uint32(s[i])) * 16777619
+	}
+	return h
+}
+
 // toolRunner applies a patch text to a file through some interface of gopatch.
 // rejected is non-empty when the patch itself was not accepted.
 type toolRunner func(patchText string, c *MCase) (out []byte, err error, rejected string)
@@ -59,13 +96,18 @@ func apiRunner(patchText string, c *MCase) ([]byte, error, string) {
 }
 
 // cliRunner runs the default (in-place) mode of the CLI.
-func cliRunner(env *core.Env, flags ...string) toolRunner {
+func cliRunner(env *core.Env, flags ...string) toolRunner { return cliRunnerMode(env, false, flags...) }
+
+// cliRunnerReal uses the real binary as a subprocess instead of the in-process driver.
+func cliRunnerReal(env *core.Env, flags ...string) toolRunner { return cliRunnerMode(env, true, flags...) }
+
+func cliRunnerMode(env *core.Env, real bool, flags ...string) toolRunner {
 	return func(patchText string, c *MCase) ([]byte, error, string) {
 		sb := newSandbox(env, "mcli", map[string]string{"t/a.go": c.File, "m.patch": patchText})
 		defer sb.remove()
 		args := append([]string{"-p", sb.path("m.patch")}, flags...)
 		args = append(args, "a.go")
-		r := sb.run(false, "t", args, "")
+		r := sb.run(real, "t", args, "")
 		if r.Panic != "" {
 			panic("gopatch CLI crashed: " + r.Panic)
 		}
@@ -224,7 +266,24 @@ type SCase struct {
 
 // judgeSeq compares the chained model prediction with one Apply of the
 // rendered multi-change patch.
-func judgeSeq(c *SCase, opts canon.Options) core.Outcome {
+func judgeSeq(c *SCase, opts canon.Options) core.Outcome { return judgeSeqWith(nil, c, opts) }
+
+// judgeSeqBoth: library API and command line.
+func judgeSeqBoth(env *core.Env, c *SCase, opts canon.Options) core.Outcome {
+	o := judgeSeqWith(nil, c, opts)
+	if o.Violation != "" || o.Skip != "" {
+		return o
+	}
+	o2 := judgeSeqWith(env, c, opts)
+	if o2.Violation != "" {
+		o2.Violation = "[command line, in place] " + o2.Violation
+		o2.FindingKey += "/cli"
+		return o2
+	}
+	return o
+}
+
+func judgeSeqWith(env *core.Env, c *SCase, opts canon.Options) core.Outcome {
 	var ccs []*model.Compiled
 	for _, ch := range c.Changes {
 		cc, err := model.Compile(ch)
@@ -262,6 +321,9 @@ func judgeSeq(c *SCase, opts canon.Options) core.Outcome {
 		return o
 	}
 	out, aerr := pf.Apply("a.go", []byte(c.File))
+	if env != nil {
+		out, aerr, _ = cliRunner(env)(ptext, &MCase{File: c.File})
+	}
 	if aerr != nil {
 		return bad("error-on-valid-rewrite", "Apply fails: %v\nexpected e.g.:\n%s", aerr, anyOf(sr.Canon))
 	}
